@@ -618,6 +618,13 @@ func (b Browse) ServeArchive(w http.ResponseWriter, r *http.Request, dirPath str
 			return filepath.SkipDir // Hidden files (and everything below a hidden directory) stay out of archives
 		}
 
+		if !info.Mode().IsRegular() && !info.IsDir() {
+			// symbolic links, sockets, devices ...: an archive holds the regular
+			// files of the directory (a link target cannot be read through the
+			// jailed file system, the archiver would fail on it)
+			return nil
+		}
+
 		var file io.ReadCloser
 		if info.Mode().IsRegular() {
 			file, err = bc.Fs.Root.Open(path)
